@@ -980,7 +980,7 @@ func (fv *FuncVerifier) evalComposite(st *State, e *ast.CompositeLit, t types.Ty
 		}
 		return Val{T: arr, Ty: t}
 	case *types.Slice:
-		row := "((as const (Array Int " + fv.eng.sc.sortOf(u.Elem()) + ")) " + fv.eng.sc.zero(u.Elem()) + ")"
+		row := fv.eng.sc.constArray("(Array Int "+fv.eng.sc.sortOf(u.Elem())+")", fv.eng.sc.zero(u.Elem()))
 		idx, n := 0, 0
 		for _, el := range e.Elts {
 			v := el
